@@ -356,21 +356,31 @@ func (s *Storer) GetRdbWriter(r io.Reader, offset int64, rdbSize int64) (*RdbWri
 		left:    offset,
 		rdbSize: rdbSize,
 	}
-	s.dataSet = newDataSet(rdb, nil)
+	ds := newDataSet(rdb, nil)
+	s.dataSet = ds
 	rdb.AddWriter(w)
 	s.dataSetMux.Unlock()
 
 	obr := &observerProxy{
-		close: s.newRdbWCloseObserver(w, rdb),
+		close: s.newRdbWCloseObserver(w, rdb, ds),
 	}
 	w.SetObserver(obr)
 
 	return w, nil
 }
 
-func (s *Storer) newRdbWCloseObserver(w *RdbWriter, rdb *dataSetRdb) func(args ...interface{}) {
+func (s *Storer) newRdbWCloseObserver(w *RdbWriter, rdb *dataSetRdb, ds *dataSet) func(args ...interface{}) {
 	return func(args ...interface{}) {
 		rdb.DelWriter(w)
+		// the writer ended before the whole snapshot was received: its temporary
+		// file is removed, so the snapshot must not be offered any more and
+		// readers following it must end
+		if len(args) > 2 {
+			if incomplete, ok := args[2].(bool); ok && incomplete {
+				ds.dropRdb(rdb)
+				rdb.Close()
+			}
+		}
 	}
 }
 
